@@ -364,6 +364,7 @@ macro_rules! make_parser {
             Init::Read(s) => <$P>::from_read(s, $cfg),
             Init::Boxed(s) => <$P>::from_boxed_dyn_read(Box::new(s), $cfg),
             Init::Buf(b) => <$P>::from_buf_reader(b, $cfg),
+            Init::BufDyn(b) => <$P>::from_buf_reader(b, $cfg),
         }
     };
 }
